@@ -181,11 +181,15 @@ func verifLemmaBaseOrientationMultiplicative(f Feature) (o1 Orientation, r1 Feat
 //@   pure
 //@   ensures -1 <= result && result <= 2
 
-// Name, Description and Len are observers too (pure; nothing else is assumed about them).
+// Name, Description and Len are observers too (pure; nameOf/descOf name what they report, nothing else is assumed).
+//@ spec nameOf(f Feature) string
+//@ spec descOf(f Feature) string
 //@ func (Feature).Name
 //@   pure
+//@   ensures result == nameOf(self)
 //@ func (Feature).Description
 //@   pure
+//@   ensures result == descOf(self)
 //@ func (Range).Len
 //@   pure
 
